@@ -70,9 +70,21 @@ var c11Structs = map[string][2]string{
 
 func c11Type(k string) string { return "*S" + k[1:] }
 
+// Layout bits of the user files that hold the derive calls (C10).
+const (
+	LayTrailingComment = 1 // comment after the last declaration, no final newline
+	LayLineComments    = 2 // doc comments and end-of-line comments at the call sites
+	LayUnformatted     = 4 // not gofmt-formatted
+	LayBlockComment    = 8 // block comment inside the call's argument list
+)
+
 // concretiseC11 builds the real package of an exported scenario.
 func concretiseC11(idx int, m mcScenario, variant int) *Scenario {
-	sc := &Scenario{ID: fmt.Sprintf("c11-%05d-v%d", idx, variant), Files: map[string]string{}, PkgDir: "p",
+	return buildPkg(fmt.Sprintf("c11-%05d-v%d", idx, variant), m, variant, 0)
+}
+
+func buildPkg(id string, m mcScenario, variant, layout int) *Scenario {
+	sc := &Scenario{ID: id, Files: map[string]string{}, PkgDir: "p",
 		Autoname: m.Autoname, Dedup: m.Dedup, Ident: true, AssertExit: true, Calls: m.Calls}
 	if m.Autoname {
 		sc.Flags = append(sc.Flags, "-autoname")
@@ -106,14 +118,32 @@ func concretiseC11(idx int, m mcScenario, variant int) *Scenario {
 		if c.P == "compare" {
 			ret = "int"
 		}
-		fmt.Fprintf(b, "\nfunc use%d(a, b %s) %s {\n\treturn %s(a, b)\n}\n", j, c11Type(c.K), ret, c.N)
+		doc, eol, args := "", "", "a, b"
+		if layout&LayLineComments != 0 {
+			doc = fmt.Sprintf("// use%d calls %s.\n", j, c.N)
+			eol = " // call " + strconv.Itoa(j)
+		}
+		if layout&LayBlockComment != 0 {
+			args = "a /* first */, b"
+		}
+		if layout&LayUnformatted != 0 {
+			fmt.Fprintf(b, "\n%sfunc use%d( a,b %s )%s{\n  return   %s( %s )%s\n}\n", doc, j, c11Type(c.K), ret, c.N, args, eol)
+		} else {
+			fmt.Fprintf(b, "\n%sfunc use%d(a, b %s) %s {\n\treturn %s(%s)%s\n}\n", doc, j, c11Type(c.K), ret, c.N, args, eol)
+		}
 	}
 	for f, b := range per {
+		if layout&LayTrailingComment != 0 {
+			b.WriteString("\n// trailing comment after the last declaration of the file")
+		}
 		sc.Files[fmt.Sprintf("p/f%d.go", f)] = b.String()
 	}
 	sc.Model = map[string]interface{}{"exit": m.Exit, "bound": m.Bound, "expect": m.Expect, "errkind": m.Errkind}
 	if len(m.Resv) > 0 {
 		sc.Note = " resv=" + strings.Join(m.Resv, ",")
+	}
+	if layout != 0 {
+		sc.Note += fmt.Sprintf(" layout=%d", layout)
 	}
 	return sc
 }
